@@ -40,6 +40,12 @@ static char viol[8][400];
 static long maxdepth = 0, maxlive = 0, n_threaded = 0, n_null_arena = 0;
 static int default_strict = 0;
 
+// arena-event trace (C20 fault plan): for every arena allocation the total arena size that allocation needed to succeed
+// (parena after the allocation + the stack in use at that moment); a failed allocation records the size it would have needed
+#define MAXTRACE 8192
+static long long tr_need[MAXTRACE], tr_bytes[MAXTRACE], tr_peak[MAXTRACE], cur_peak = 0;  // tr_peak: largest parena+pstack seen before the event
+static int ntr = 0, tracing = 0;
+
 static void violate(const char* fmt, unsigned long long a, unsigned long long b, unsigned long long c, unsigned long long e) {
   if (nviol < 8) snprintf(viol[nviol], sizeof(viol[0]), fmt, a, b, c, e);
   nviol++;
@@ -70,6 +76,7 @@ static void hook(const mjData* d, int kind, const void* ptr, size_t bytes, size_
   uintptr_t arena = (uintptr_t)d->arena, top = arena + (uintptr_t)d->narena;
   uintptr_t p = (uintptr_t)ptr;
   if (kind == 0 || kind == 1) {
+    if (tracing && (long long)(d->parena + d->pstack) > cur_peak) cur_peak = (long long)(d->parena + d->pstack);
     if (kind == 1) n_threaded++;
     if (!ptr) violate("stack alloc of %llu bytes returned NULL", bytes, 0, 0, 0);
     else {
@@ -85,6 +92,15 @@ static void hook(const mjData* d, int kind, const void* ptr, size_t bytes, size_
       if (s->nlive > maxlive) maxlive = s->nlive;
     }
   } else if (kind == 2) {
+    if (tracing && ntr < MAXTRACE) {
+      size_t pad = 0;
+      if (!ptr && alignment) { size_t mis = ((uintptr_t)d->arena + d->parena) % alignment; pad = mis ? alignment - mis : 0; }
+      tr_need[ntr] = (long long)(d->parena + (ptr ? 0 : pad + bytes) + d->pstack);
+      tr_bytes[ntr] = (long long)bytes;
+      tr_peak[ntr] = cur_peak;
+      if (tr_need[ntr] > cur_peak) cur_peak = tr_need[ntr];
+      ntr++;
+    }
     if (!ptr) {
       n_null_arena++;
     } else {
@@ -135,6 +151,18 @@ VF_API void vf_mem_install(int strict_arena) {
 }
 
 VF_API void vf_mem_uninstall(void) { mjv_memhook = 0; }
+
+VF_API void vf_mem_trace(int on) { pthread_mutex_lock(&mu); tracing = on; if (on) { ntr = 0; cur_peak = 0; } pthread_mutex_unlock(&mu); }
+VF_API int vf_mem_trace_get(long long* need, long long* bytes, int max) {
+  int n = ntr < max ? ntr : max;
+  for (int i = 0; i < n; i++) { need[i] = tr_need[i]; bytes[i] = tr_bytes[i]; }
+  return ntr;
+}
+VF_API int vf_mem_trace_peaks(long long* peak, int max) {
+  int n = ntr < max ? ntr : max;
+  for (int i = 0; i < n; i++) peak[i] = tr_peak[i];
+  return ntr;
+}
 
 // forget the shadow of d (after mj_resetData, a trapped error, or before deleting d)
 VF_API void vf_mem_forget(const mjData* d) {
